@@ -1027,6 +1027,9 @@ func (s *Store[K, V]) processSecondary() {
 		// not exist means key already deleted by Delete API
 		_, exist := item.shard.get(item.entry.key)
 		if exist {
+			// the value written now is the current one: an overwrite that slips in
+			// before the entry has left the map sets the mark again
+			item.entry.dirty.Store(false)
 			err := s.secondaryCache.Set(
 				item.entry.key, item.entry.value,
 				item.entry.weight.Load(), item.entry.expire.Load(),
@@ -1040,6 +1043,24 @@ func (s *Store[K, V]) processSecondary() {
 			}
 			if item.reason == EVICTED {
 				item.shard.mu.Lock()
+				if err == nil && item.entry.dirty.Load() {
+					// overwritten between the write and this lock: the entry leaves
+					// memory with the newer value, which has to be written as well
+					err = s.secondaryCache.Set(
+						item.entry.key, item.entry.value,
+						item.entry.weight.Load(), item.entry.expire.Load(),
+					)
+					if err != nil {
+						s.secondaryCache.HandleAsyncError(err)
+					}
+				}
+				if err != nil {
+					// the value the entry leaves memory with did not reach the secondary
+					// cache: an older copy of the key over there must not outlive it
+					if derr := s.secondaryCache.Delete(item.entry.key); derr != nil {
+						s.secondaryCache.HandleAsyncError(derr)
+					}
+				}
 				deleted := item.shard.delete(item.entry)
 				item.shard.mu.Unlock()
 				if deleted {
